@@ -29,6 +29,25 @@
    vocabulary under explicit coupling predicates (which ARE the wiring obligation + validator client
    honesty); composed companion.
 
+   DEPENDS ON (definitions / lemmas of the frozen component developments; a change of any of these
+   breaks this file):
+     Stores/ParSigDB.v      key, kduty, dtype, partial (P share root pid), entry (EGood/EBad), status (Scheduled),
+                            err (ENone/EMismatch/EOther), label (ABegin/AEntry/AEnd), call and its fields c_open c_int
+                            c_duty c_st c_todo c_out c_mis c_abort, new_call, remove1, entry_eqb, key_eqb, upd, updc,
+                            state (ent, calls), init, step, run, classify/verdict (VNew VDup VMismatch), find_share,
+                            eroot, is_sig, group, thresh, dflt, store_new, outmap
+     Stores/ParSigDBFacts.v ekey_of, ex_of, mfire, mcall, mstore, outl, step_begin, step_entry, step_end, mcall_static,
+                            mcall_out, mfire_iff, thresh_spec, find_share_some, key_eqb_eq, key_eqb_refl, entry_eqb_eq,
+                            upd_same, upd_other, updc_same, updc_other, out_ok_spec, MInv (m_nodup), minv_init, run_minv,
+                            reject_reported, delivery
+     Flow/SigAgg.v          sigt (PSig SOther), kind (KTyped), mkobj, mkps, p_idx, p_sig, o_content, share_map, aggregate
+     Flow/SigAggFacts.v     aggregate_sound, share_map_last, share_map_In, share_map_nodup, get_In
+     Stores/DutyDB.v        label (LAnswer), key, run, xinit, disciplined
+     Stores/DutyDBFacts.v   answers_unique, run_monitor
+     Qbft/Model.v           label;  Qbft/Net.v  cfg, wf_cfg, nreach, trace_nofail, trace_decides
+     Qbft/Agreement.v       agreement_default;  Qbft/CmpInv.v  trace_cmp_fun;  Qbft/AgreementCmp.v  agreement_cmp
+     Common/Quorum.v        quorum, faulty (through Flow/PipelineFacts.v)
+
    Still assumed after composition: symbolic BLS (genuine partials of honest shares come only from
    their own validator client; SigAgg's symbolic verifier = C08 + unforgeability), the wiring
    obligation (C01_wiring, checked on the regenerated list, here visible as the shape of the
@@ -930,7 +949,7 @@ Qed.
 
 (* C06_answers_unique without the order: all answers a duty store ever gives for one key carry the
    same content. *)
-Theorem dutydb_answers_one_content : forall dls ds, DD.run DD.init dls = Some ds -> DD.disciplined dls = true ->
+Theorem dutydb_answers_one_content : forall dls ds, DD.run DD.xinit dls = Some ds -> DD.disciplined dls = true ->
   forall q1 q2 k c1 c2, In (DD.LAnswer q1 k c1) dls -> In (DD.LAnswer q2 k c2) dls -> c1 = c2.
 Proof.
   intros dls ds H D q1 q2 k c1 c2 H1 H2.
@@ -948,7 +967,7 @@ Definition vc_follows (ckey : key -> bool) (ls : list label) (nd : node) (dls : 
 
 (* ... hence a validator client that signs what it is served signs at most one root per key. *)
 Theorem vc_one_root_per_key : forall ckey ls nd dls ds dkey croot,
-  DD.run DD.init dls = Some ds -> DD.disciplined dls = true -> vc_follows ckey ls nd dls dkey croot ->
+  DD.run DD.xinit dls = Some ds -> DD.disciplined dls = true -> vc_follows ckey ls nd dls dkey croot ->
   forall b o b' o' k r r', ckey k = true ->
     In (LSign nd b o) ls -> In (k, r) b -> In (LSign nd b' o') ls -> In (k, r') b' -> r = r'.
 Proof.
